@@ -2,6 +2,7 @@
    Numbers are hexadecimal, optionally preceded by '-'; lists are comma separated, "_" is
    the empty list.  Nothing here is part of the model. *)
 open Szm
+type string = Stdlib.String.t   (* the extracted Coq string type is Szm.string *)
 
 let rec pos_of_bits (bits : bool list) : positive option =
   (* bits: least significant first *)
@@ -63,3 +64,12 @@ let zlist_of_string (s : string) : z list =
 let string_of_zlist (l : z list) : string =
   if l = [] then "_" else String.concat "," (List.map hex_of_z l)
 let nat_of_hex s = nat_of_int (int_of_string ("0x" ^ s))
+
+(* OCaml string <-> extracted Coq string (list of Ascii of 8 booleans, least significant first) *)
+let coq_string_of (s : string) : Szm.string =
+  let n = String.length s in
+  let rec go i = if i >= n then EmptyString else
+      let c = Char.code s.[i] in
+      let b k = (c lsr k) land 1 = 1 in
+      String (Ascii (b 0, b 1, b 2, b 3, b 4, b 5, b 6, b 7), go (i + 1)) in
+  go 0
